@@ -12,6 +12,7 @@ import (
 	"fmt"
 	"os"
 	"path/filepath"
+	"runtime/pprof"
 	"sort"
 	"strconv"
 	"strings"
@@ -41,27 +42,56 @@ func main() {
 			smtLog = w
 		}
 	}
+	if f := os.Getenv("SYMGO_CPUPROFILE"); f != "" {
+		if w, err := os.Create(f); err == nil {
+			pprof.StartCPUProfile(w)
+		}
+	}
+	if os.Getenv("SYMGO_STEPPROF") != "" {
+		stepProf = map[string]int{}
+	}
+	rc := realMain()
+	if stepProf != nil {
+		type kv struct {
+			k string
+			v int
+		}
+		var l []kv
+		for k, v := range stepProf {
+			l = append(l, kv{k, v})
+		}
+		sort.Slice(l, func(i, j int) bool { return l[i].v > l[j].v })
+		for i := 0; i < len(l) && i < 25; i++ {
+			fmt.Fprintf(os.Stderr, "%8d %s\n", l[i].v, l[i].k)
+		}
+	}
+	pprof.StopCPUProfile()
+	os.Exit(rc)
+}
+
+func realMain() int {
 	if len(os.Args) < 2 {
 		fmt.Fprintln(os.Stderr, "usage: symgo check|run|replay|list ...")
-		os.Exit(2)
+		return 2
 	}
 	switch os.Args[1] {
 	case "check":
-		os.Exit(cmdCheck(os.Args[2:]))
+		return cmdCheck(os.Args[2:])
 	case "run":
-		os.Exit(cmdRun(os.Args[2:]))
+		return cmdRun(os.Args[2:])
 	case "replay":
-		os.Exit(cmdReplay(os.Args[2:]))
+		return cmdReplay(os.Args[2:])
 	case "manifest":
-		os.Exit(cmdManifest())
+		return cmdManifest()
 	case "list":
 		for _, id := range checkIDs() {
 			fmt.Println(id)
 		}
 	default:
 		fmt.Fprintln(os.Stderr, "unknown command", os.Args[1])
-		os.Exit(2)
+		return 2
 	}
+	return 0
 }
 
 func nworkers() int {
@@ -274,6 +304,7 @@ func conclude(id, tier string, def *checkDef, results []*exploreResult, wall tim
 			continue
 		}
 		for _, v := range r.violations {
+			v.spec = r.spec
 			matched := false
 			for _, k := range known {
 				if k.Property == id && k.Status == "known" && (k.Harness == "" || k.Harness == v.Harness) && strings.Contains(v.Sig, k.Match) {
@@ -320,7 +351,7 @@ func conclude(id, tier string, def *checkDef, results []*exploreResult, wall tim
 	for i, v := range reported {
 		os.MkdirAll(replayDir, 0o755)
 		path := filepath.Join(replayDir, fmt.Sprintf("%s_%d.json", v.Harness, i))
-		rec := replayFile{Property: id, Tier: tier, Violation: v, Dir: def.dirOf(v.Harness), Pkg: def.pkgOf(v.Harness), Params: def.paramsOf(tier, v.Harness)}
+		rec := replayFile{Property: id, Tier: tier, Violation: v, Dir: def.dirOf(v.Harness), Pkg: def.pkgOf(v.Harness), Params: v.spec.Params}
 		b, _ := json.MarshalIndent(rec, "", " ")
 		os.WriteFile(path, b, 0o644)
 		kind, ok, note := replayNative(&rec)
@@ -412,7 +443,7 @@ func writeEvidence(id, tier string, def *checkDef, results []*exploreResult, vio
 			"params": r.spec.Params, "context_bound": r.spec.Preemptions, "witnesses_reached": labels,
 			"obligations": r.asserts, "solver_queries": r.solverQueries, "solver_time_s": round3(r.solverTime.Seconds()),
 			"wall_s": round3(r.wall.Seconds()), "truncated": r.truncated, "incomplete": r.incomplete,
-			"expect_violation_twin": r.spec.ExpectViolation,
+			"expect_violation_twin": r.spec.ExpectViolation, "float_havoc_ops": r.havocs,
 		})
 	}
 	for _, v := range viol {
